@@ -63,6 +63,18 @@ theorem cdelta_eq (m : Int) (b : EVal) : eq (.cdelta m) b = true ↔ b = .cdelta
 example : eq (.cell (.int 1)) (.cdelta 12) = false ∧ eq (.cdelta (12 * 1)) (.cdelta 12) = true ∧ eq (.cdelta 12) (.cell (.int 12)) = false
     ∧ eq (.cdelta 12) (.tdelta 12) = false ∧ eq (.arr [1] [.cdelta 12]) (.arr [1] [.cell (.int 12)]) = false := by decide
 
+/-- an `np.datetime64` in `ps` / `fs` / `as` (review v5, fix C14-F10; `fdt a` = the instant in attoseconds) equals exactly the fine `np.datetime64` of the same
+instant: never a `datetime` / `Timestamp` / coarser `np.datetime64` (the `dt` cell; before the fix `Timestamp.__eq__` truncated to ns, so `datetime(1970,1,1)`,
+`Timestamp(0)` and `datetime64(0,'ps')` formed an intransitive chain and 0 ps and 1 ps were both `eq` to `Timestamp(0)`), never a number, a date or a container -/
+theorem fdt_eq (a : Int) (b : EVal) : eq (.fdt a) b = true ↔ b = .fdt a := by
+  cases b <;> simp [eq, EVal.norm, eqN] <;> exact eq_comm
+
+/-- the chain of review v5 on the model: the Timestamp equals the datetime (one `dt` cell), neither equals the picosecond value at the same instant;
+1 ps is 1000 fs; 0 ps and 1 ps differ; cell by cell in arrays and lists -/
+example : eq (.cell (.dt 0)) (.fdt 0) = false ∧ eq (.fdt 0) (.cell (.dt 0)) = false ∧ eq (.fdt (1000000 * 1)) (.fdt (1000 * 1000)) = true
+    ∧ eq (.fdt 0) (.fdt 1000000) = false ∧ eq (.fdt 0) (.cell (.int 0)) = false ∧ eq (.fdt 0) (.date 0) = false
+    ∧ eq (.arr [1] [.fdt 0]) (.arr [1] [.cell (.dt 0)]) = false ∧ eq (.list [.fdt 0]) (.list [.fdt 0]) = true := by decide
+
 /-- a date equals exactly that date: not the datetime (`Timestamp`, `np.datetime64` of any unit) at its midnight -/
 theorem date_eq (d : Int) (b : EVal) : eq (.date d) b = true ↔ b = .date d := by
   cases b <;> simp [eq, EVal.norm, eqN] <;> exact eq_comm
@@ -181,6 +193,20 @@ theorem eq_agrees_pyeq_seq (a b : EVal) (ha : a.seqPlain = true) (hb : b.seqPlai
 theorem eq_agrees_pyeq_needs_keysOk :
     let x := EVal.dict 0 [("a", .cell (.int 1)), ("a", .cell (.int 2))]
     x.plain = true ∧ eq x x = true ∧ pyEqV x x = false := by decide
+
+/-- python `==` of two `collections.OrderedDict`s (class 3 on the wire; reference function, CPython `odict_richcompare`): equal as mappings AND
+the keys in the same insertion order.  Python's `==` of an `OrderedDict` with a plain `dict` is the order-blind mapping comparison. -/
+def pyEqOD (a b : List (String × EVal)) : Bool :=
+  pyEqV (.dict 0 a) (.dict 0 b) && (a.map (·.1) == b.map (·.1))
+
+/-- review v5 (declared, not a defect: the clause "agrees with ==" is about NaN-free PLAIN values and `EVal.plain` means the exact class `dict`): an
+`OrderedDict` is a dict subclass, `eq` compares its key-SORTED items like those of every dict, so two OrderedDicts holding the same items in another
+insertion order are `eq` (`eq_dict_iff`: class, size, every item found under its key) while python's `==` tells them apart - `eq_agrees_pyeq` cannot be
+extended to class-3 dicts.  Generated as `(DC 3 ..)`; model and code agree (True), the `python==` law is not applied to it. -/
+theorem eq_ordered_dict_ignores_order :
+    let a : List (String × EVal) := [("a", .cell (.int 1)), ("b", .cell (.int 2))]
+    let b : List (String × EVal) := [("b", .cell (.int 2)), ("a", .cell (.int 1))]
+    eq (.dict 3 a) (.dict 3 b) = true ∧ pyEqOD a b = false ∧ pyEqOD a a = true ∧ eq (.dict 3 a) (.dict 0 a) = false := by decide
 
 /-! ### in_ -/
 
